@@ -371,7 +371,34 @@ class Facts:
                 self.aliases[a['path']] = a
             for k in d['consts']:
                 self.consts[k['def']] = k
+        self.hidden_fns = {}
+        self.inlined = {}
+        self.delegates = {}
+        self._expand_helpers()
         self._canonical_locals()
+
+    def _anchor_base(self):
+        global _ANCHOR_BASE
+        try:
+            return _ANCHOR_BASE
+        except NameError:
+            fp = os.path.join(VERIF, 'allow', 'anchors.json')
+            try:
+                _ANCHOR_BASE = json.load(open(fp))['fns']
+            except (OSError, ValueError, KeyError):
+                _ANCHOR_BASE = None
+            return _ANCHOR_BASE
+
+    def _expand_helpers(self):
+        """new private helper functions are expanded at their uses (verif/normalise.py)"""
+        base = self._anchor_base()
+        if not base:
+            return
+        from .normalise import Normaliser
+        n = Normaliser(self, base)
+        n.run()
+        self.inlined = {h: sorted(o) for h, o in n.expanded.items()}
+        self.delegates = dict(n.delegates)
 
     def _canonical_locals(self):
         """renamed local variables are read under the names the rules know (allow/locals.json): only when the function binds the same
@@ -417,12 +444,8 @@ class Facts:
 
     def _detect_renames(self):
         """[(old def path, new def path)]: a private function that was renamed or moved keeps its rules (allow/anchors.json)"""
-        fp = os.path.join(VERIF, 'allow', 'anchors.json')
-        if not os.path.exists(fp):
-            return []
-        try:
-            base = json.load(open(fp))['fns']
-        except (ValueError, KeyError):
+        base = self._anchor_base()
+        if not base:
             return []
         sig = lambda v: (tuple(v.get('inputs') or []), v.get('output'), tuple(v.get('generics') or []))
         unknown = {d: v for d, v in self.fns.items() if d not in base and '::test' not in d}
@@ -689,6 +712,10 @@ def run_property(prop, tier, rule_fn, configs_quick=('default',), configs_thorou
             facts = Facts(cfg)
             for old, new in facts.renames:
                 note = f'anchor `{old}` is gone; the only new function with its signature, `{new}`, is analysed in its place (allow/anchors.json).'
+                if note not in rep.notes:
+                    rep.notes.append(note)
+            for h, owners in sorted(getattr(facts, 'inlined', {}).items()):
+                note = f'new private function `{h}` expanded at its uses in {", ".join("`" + o + "`" for o in owners[:4])} (verif/normalise.py).'
                 if note not in rep.notes:
                     rep.notes.append(note)
             for d, changed in getattr(facts, 'local_renames', []):
